@@ -126,6 +126,17 @@ def gen_case(rng, stream):
     return case
 
 
+def gen_history_case(rng, force):
+    """three problems in a row from the same ParameterValues; `force`: contains a logarithmic vector with
+    per-component boundaries (the only declaration whose boundary array is handed out as views)"""
+    while True:
+        c = gen_case(rng, rng.choice(["exact", "exact", "float"]))
+        if not force or any(v["log"] and isinstance(v["values"], list) and isinstance(v["bounds"][0], list) for v in c["vars"]):
+            break
+    c["history_of"], c["stream"], c["rounds"] = c["stream"], "history", 3
+    return c
+
+
 def gen_run_case(rng, algo, single=False):
     n = 1 if single else rng.choice([2, 2, 3])
     while True:
@@ -134,7 +145,7 @@ def gen_run_case(rng, algo, single=False):
             vs[0]["values"], vs[0]["bounds"] = "_", (vs[0]["bounds"][0] if isinstance(vs[0]["bounds"][0], list) else vs[0]["bounds"])
         if sum(slots_of(v) for v in vs) <= 6:
             break
-    return {"stream": "run", "vars": vs, "algo": algo, "pygmo_seed": rng.randrange(1, 100000),
+    return {"stream": "run", "rounds": 2, "vars": vs, "algo": algo, "pygmo_seed": rng.randrange(1, 100000),
             "islands": rng.choice([1, 2]), "evolutions": 2, "best": rng.choice([0, 2, 3])}
 
 
@@ -159,8 +170,26 @@ def _err(e):
     return "assertion" if isinstance(e, AssertionError) else {"ValueError": "value", "IndexError": "index"}.get(common.err_kind(e), common.err_kind(e))
 
 
-def _problem(vs, tmp):
-    """the fitting problem exactly as Calibration.run_calibration builds it"""
+def _snapshot(pvs):
+    """the caller's declaration as it stands: (key, values, logarithmic, boundaries) per ParameterValues"""
+    import copy
+
+    import numpy as np
+
+    return [(pv.key, copy.deepcopy(pv.values), bool(pv.logarithmic), None if pv.boundaries is None else np.array(pv.boundaries, copy=True))
+            for pv in pvs]
+
+
+def _same_declaration(a, b):
+    import numpy as np
+
+    return len(a) == len(b) and all(
+        x[0] == y[0] and x[1] == y[1] and x[2] == y[2] and np.array_equal(x[3], y[3]) for x, y in zip(a, b))
+
+
+def _problem(vs, tmp, pvs=None):
+    """the fitting problem exactly as Calibration.run_calibration builds it (`pvs`: the caller's own
+    ParameterValues objects, re-used from one problem to the next in the history stream)"""
     import numpy as np
     import pyx
     from pyxel.calibration import FitRange3D, to_fit_range
@@ -172,7 +201,7 @@ def _problem(vs, tmp):
     np.save(target, np.zeros((ROWS, COLS)))
     proc = Processor(detector=pyx.make_detector("CCD", ROWS, COLS), pipeline=_pipeline(vs))
     return ModelFittingDataTree(
-        processor=proc, variables=_param_values(vs), readout=Readout(), simulation_output="pixel",
+        processor=proc, variables=_param_values(vs) if pvs is None else pvs, readout=Readout(), simulation_output="pixel",
         generations=1, population_size=8,
         fitness_func=FitnessFunction("pyxel.calibration.fitness.sum_of_abs_residuals"), file_path=None,
         target_filenames=[target], target_fit_range=to_fit_range([0, ROWS, 0, COLS]),
@@ -203,44 +232,98 @@ def _num(x):
     return float(x)
 
 
-def run_direct(case):
-    """drive _set_bound / convert_to_parameters / update_processor / fitness on the real class"""
+def _eval_problem(vs, case, tmp, pvs):
     import numpy as np
     import probes
 
+    try:
+        prob = _problem(vs, tmp, pvs)
+    except Exception as e:  # noqa: BLE001
+        stage = "ctor" if any(v.get("bad") == "ctor-rows" for v in vs) and not isinstance(e, AssertionError) else "set_bound"
+        return {"error": _err(e), "stage": stage, "msg": str(e)[:200]}
+    lb, ub = prob.get_bounds()
+    out = {"bounds": [[float(a) for a in lb], [float(a) for a in ub]], "evals": []}
+    for x in case["xs"]:
+        ev = {}
+        params = prob.convert_to_parameters(np.array(x))
+        ev["reported"] = [float(p) for p in params]
+        newp = prob.update_processor(parameter=params, processor=prob.param_processor_list[0])
+        upd = []
+        for v in vs:
+            val = newp.get(f"pipeline.{GROUP}.{MODEL}.arguments.{v['key']}")
+            upd.append([v["key"], {"v": [float(t) for t in val]} if np.ndim(val) else {"s": float(val)}])
+        ev["updated"] = upd
+        probes.reset()
+        f = prob.fitness(np.array(x))
+        calls = [r for r in probes.LOG if r[0] == "cal"]
+        ev["n_calls"] = len(calls)
+        ev["applied"] = _assigned_from_kwargs(vs, json.loads(calls[-1][1])) if calls else None
+        ev["fitness_len"] = len(f)
+        out["evals"].append(ev)
+    if case["xs"]:
+        p2 = prob.convert_to_parameters(np.array(case["xs"]))
+        out["reported2d"] = [[float(t) for t in row] for row in p2]
+    return out
+
+
+def run_direct(case):
+    """drive _set_bound / convert_to_parameters / update_processor / fitness on the real class.
+    `case["rounds"]` > 1 (history stream): that many problems are built one after the other from the SAME
+    ParameterValues objects; the later rounds are returned under "history", and "declaration_unchanged"
+    says, per round, whether the caller's ParameterValues still hold what was declared."""
     vs = case["vars"]
     tmp = tempfile.mkdtemp(prefix="c10-")
     try:
         try:
-            prob = _problem(vs, tmp)
+            pvs = _param_values(vs)
         except Exception as e:  # noqa: BLE001
-            stage = "ctor" if any(v.get("bad") == "ctor-rows" for v in vs) and not isinstance(e, AssertionError) else "set_bound"
-            return {"error": _err(e), "stage": stage, "msg": str(e)[:200]}
-        lb, ub = prob.get_bounds()
-        out = {"bounds": [[float(a) for a in lb], [float(a) for a in ub]], "evals": []}
-        for x in case["xs"]:
-            ev = {}
-            params = prob.convert_to_parameters(np.array(x))
-            ev["reported"] = [float(p) for p in params]
-            newp = prob.update_processor(parameter=params, processor=prob.param_processor_list[0])
-            upd = []
-            for v in vs:
-                val = newp.get(f"pipeline.{GROUP}.{MODEL}.arguments.{v['key']}")
-                upd.append([v["key"], {"v": [float(t) for t in val]} if np.ndim(val) else {"s": float(val)}])
-            ev["updated"] = upd
-            probes.reset()
-            f = prob.fitness(np.array(x))
-            calls = [r for r in probes.LOG if r[0] == "cal"]
-            ev["n_calls"] = len(calls)
-            ev["applied"] = _assigned_from_kwargs(vs, json.loads(calls[-1][1])) if calls else None
-            ev["fitness_len"] = len(f)
-            out["evals"].append(ev)
-        if case["xs"]:
-            p2 = prob.convert_to_parameters(np.array(case["xs"]))
-            out["reported2d"] = [[float(t) for t in row] for row in p2]
+            return {"error": _err(e), "stage": "ctor", "msg": str(e)[:200]}
+        declared = _snapshot(pvs)
+        rounds, unchanged = [], []
+        for _ in range(case.get("rounds", 1)):
+            rounds.append(_eval_problem(vs, case, tmp, pvs))
+            unchanged.append(_same_declaration(declared, _snapshot(pvs)))
+        out = rounds[0]
+        if len(rounds) > 1:
+            out["history"] = rounds[1:]
+        out["declaration_unchanged"] = unchanged
         return out
     finally:
         shutil.rmtree(tmp, ignore_errors=True)
+
+
+def _one_calibration(case, cal, tmp):
+    import numpy as np
+    import probes
+    import pyx
+    import pyxel
+
+    vs = case["vars"]
+    probes.reset()
+    try:
+        dt = pyxel.run_mode(cal, pyx.make_detector("CCD", ROWS, COLS), _pipeline(vs))
+    except Exception as e:  # noqa: BLE001
+        return {"error": common.err_kind(e), "msg": str(e)[:300]}
+    evals = [_assigned_from_kwargs(vs, json.loads(r[1])) for r in list(probes.LOG) if r[0] == "cal"]
+    out = {"n_evals": len(evals), "evals": evals}
+    ch = dt["/champion"]
+    out["champion_decision"] = np.asarray(ch["decision"].values, dtype=float).reshape(-1, ch["decision"].shape[-1]).tolist()
+    out["champion_parameters"] = np.asarray(ch["parameters"].values, dtype=float).reshape(-1, ch["parameters"].shape[-1]).tolist()
+    if "best" in dt.children:
+        b = dt["/best"]
+        out["best_decision"] = np.asarray(b["decision"].values, dtype=float).reshape(-1, b["decision"].shape[-1]).tolist()
+        out["best_parameters"] = np.asarray(b["parameters"].values, dtype=float).reshape(-1, b["parameters"].shape[-1]).tolist()
+    # the reported decision vectors re-applied on a problem built from a FRESH copy of the declaration
+    prob = _problem(vs, tmp)
+    out["lb"], out["ub"] = [[float(t) for t in s] for s in prob.get_bounds()]
+    re = []
+    for x in out["champion_decision"]:
+        probes.reset()
+        prob.fitness(np.array(x))
+        calls = [r for r in probes.LOG if r[0] == "cal"]
+        re.append(_assigned_from_kwargs(vs, json.loads(calls[-1][1])))
+    out["champion_reapplied"] = re
+    return out
 
 
 def run_calibration(case):
@@ -259,38 +342,27 @@ def run_calibration(case):
         algo = {"sade": dict(type="sade", generations=2, population_size=8),
                 "sga": dict(type="sga", generations=2, population_size=6),
                 "nlopt": dict(type="nlopt", generations=1, population_size=5, maxeval=12, nlopt_solver="neldermead")}[case["algo"]]
+        pvs = _param_values(vs)
+        declared = _snapshot(pvs)
+        # one configuration object, run `rounds` times in a row (what re-executing `pyxel.run_mode(config…)` does)
         cal = Calibration(
             target_data_path=[tmp + "/target.npy"],
             fitness_function=FitnessFunction("pyxel.calibration.fitness.sum_of_abs_residuals"),
-            algorithm=Algorithm(**algo), parameters=_param_values(vs), result_type="pixel",
+            algorithm=Algorithm(**algo), parameters=pvs, result_type="pixel",
             result_fit_range=[0, ROWS, 0, COLS], target_fit_range=[0, ROWS, 0, COLS],
             pygmo_seed=case["pygmo_seed"], num_islands=case["islands"], num_evolutions=case["evolutions"],
             num_best_decisions=case["best"] or None,
         )
-        probes.reset()
-        try:
-            dt = pyxel.run_mode(cal, pyx.make_detector("CCD", ROWS, COLS), _pipeline(vs))
-        except Exception as e:  # noqa: BLE001
-            return {"error": common.err_kind(e), "msg": str(e)[:300]}
-        evals = [_assigned_from_kwargs(vs, json.loads(r[1])) for r in list(probes.LOG) if r[0] == "cal"]
-        out = {"n_evals": len(evals), "evals": evals}
-        ch = dt["/champion"]
-        out["champion_decision"] = np.asarray(ch["decision"].values, dtype=float).reshape(-1, ch["decision"].shape[-1]).tolist()
-        out["champion_parameters"] = np.asarray(ch["parameters"].values, dtype=float).reshape(-1, ch["parameters"].shape[-1]).tolist()
-        if "best" in dt.children:
-            b = dt["/best"]
-            out["best_decision"] = np.asarray(b["decision"].values, dtype=float).reshape(-1, b["decision"].shape[-1]).tolist()
-            out["best_parameters"] = np.asarray(b["parameters"].values, dtype=float).reshape(-1, b["parameters"].shape[-1]).tolist()
-        # the reported decision vectors re-applied on an identically built problem
-        prob = _problem(vs, tmp)
-        out["lb"], out["ub"] = [[float(t) for t in s] for s in prob.get_bounds()]
-        re = []
-        for x in out["champion_decision"]:
-            probes.reset()
-            prob.fitness(np.array(x))
-            calls = [r for r in probes.LOG if r[0] == "cal"]
-            re.append(_assigned_from_kwargs(vs, json.loads(calls[-1][1])))
-        out["champion_reapplied"] = re
+        rounds, unchanged = [], []
+        for _ in range(case.get("rounds", 1)):
+            rounds.append(_one_calibration(case, cal, tmp))
+            unchanged.append(_same_declaration(declared, _snapshot(pvs)))
+            if "error" in rounds[-1]:
+                break
+        out = rounds[0]
+        if len(rounds) > 1:
+            out["history"] = rounds[1:]
+        out["declaration_unchanged"] = unchanged
         return out
     finally:
         shutil.rmtree(tmp, ignore_errors=True)
@@ -502,6 +574,22 @@ def compare_direct(case, impl, ans):
     return None
 
 
+def rounds_of(impl):
+    return [impl] + list(impl.get("history", []))
+
+
+def over_rounds(pred, case, impl):
+    """the statement on every problem / calibration of a history: all are judged against the ORIGINAL declaration"""
+    for n, r in enumerate(rounds_of(impl)):
+        pv = pred(case, r)
+        if pv:
+            if n == 0:
+                return pv
+            return (pv[0] + ":rebuilt", f"problem/run #{n + 1} built from the same ParameterValues objects as #1 (declaration "
+                    f"{'still intact' if all(impl.get('declaration_unchanged', [True])[:n]) else 'overwritten by an earlier build'}): " + pv[1])
+    return None
+
+
 def _run_case(case):
     return run_direct(case) if case["stream"] != "run" else run_calibration(case)
 
@@ -523,6 +611,8 @@ def body(ck: common.Check):
                     v = gen_var(rng, j, exact=True)
                 vs.append(v)
             cases.append({"stream": "exact", "vars": vs, "xs": [gen_x(rng, vs, True) for _ in range(2)]})
+    # history: several problems built one after the other from the SAME ParameterValues objects
+    cases += [gen_history_case(rng, force=(i % 2 == 0)) for i in range(30 if quick else 300)]
     runs = []
     algos = ["sade", "sga", "nlopt"]
     for i in range(6 if quick else 45):
@@ -540,30 +630,44 @@ def body(ck: common.Check):
         ck.count("vector_before_scalar", int(any(isinstance(a["values"], list) and b["values"] == "_" for a, b in zip(case["vars"], case["vars"][1:]))))
         ck.count("per_component_bounds", sum(1 for v in case["vars"] if isinstance(v["bounds"][0], list)))
         ck.count("outcome=" + (impl.get("error", "ok") + ("@" + impl["stage"] if "stage" in impl else "")))
-        pv = predicate_direct(case, impl)
+        pv = over_rounds(predicate_direct, case, impl)
         if pv:
             ck.violation(pv[0], pv[1], {"case": case, "impl": impl})
-        why = compare_direct(case, impl, ans)
-        if why:
-            ck.disagreement(case["stream"], case, {"impl": impl, "why": why}, ans)
+        for n, r in enumerate(rounds_of(impl)):
+            why = compare_direct(case, r, ans)
+            if why:
+                ck.disagreement(case["stream"], case, {"impl": r, "round": n + 1, "why": why}, ans)
+                break
+        if not all(impl.get("declaration_unchanged", [True])):
+            # the model is a function of the declaration, which it cannot change (theorem setBound_history_independent)
+            ck.disagreement(case["stream"], case, {"why": "building a problem changed the caller's ParameterValues", "unchanged_per_round": impl["declaration_unchanged"]}, "declaration unchanged")
+        if case["stream"] == "history":
+            ck.count("history_problems", len(rounds_of(impl)))
         lay = ans["layout"]
         wf = not any(v.get("bad") == "ctor-rows" for v in case["vars"])  # hypothesis `Var.WF` of the theorem
         if wf and "ok" in ans["bounds"] and not (lay["bound"] == lay["convert"] == lay["update"] == lay["spec"]):
             raise common.InfraError(f"driver contradicts theorem three_walkers_agree: {lay}")
     # full calibrations: model answers need the decision vectors the optimiser chose
     run_impls = [run_calibration(c) for c in runs]
-    reqs = []
+    flat = []  # (case, whole impl, one round of it)
     for case, impl in zip(runs, run_impls):
+        ck.case(case, nontrivial="error" not in impl, stream="run:" + case["algo"])
+        ck.count("run_calibrations", len(rounds_of(impl)))
+        pv = over_rounds(predicate_run, case, impl)
+        if pv:
+            ck.violation(pv[0], pv[1], {"case": case, "impl": {k: v for k, v in impl.items() if k not in ("evals", "history")}})
+        if not all(impl.get("declaration_unchanged", [True])):
+            ck.disagreement("run", case, {"why": "a calibration run changed the caller's ParameterValues", "unchanged_per_round": impl["declaration_unchanged"]}, "declaration unchanged")
+        flat += [(case, r) for r in rounds_of(impl)]
+    reqs = []
+    for case, impl in flat:
         xs = [] if "error" in impl else impl["champion_decision"] + impl.get("best_decision", [])
+        xs = [x for x in xs if all(c == c and abs(c) != float("inf") for c in x)]
         reqs.append(lean_request(case["vars"], xs))
-    for case, impl, ans in zip(runs, run_impls, LeanDriver("C10").batch(reqs)):
+    for (case, impl), ans in zip(flat, LeanDriver("C10").batch(reqs)):
         if "bad" in ans:
             raise common.InfraError(f"driver rejected request: {ans}")
-        ck.case(case, nontrivial="error" not in impl, stream="run:" + case["algo"])
         ck.count("run_evaluations", impl.get("n_evals", 0))
-        pv = predicate_run(case, impl)
-        if pv:
-            ck.violation(pv[0], pv[1], {"case": case, "impl": {k: v for k, v in impl.items() if k != "evals"}})
         if "error" not in impl:
             logs_flat = [lg for _, _, lg in box(case["vars"])]
             rep = impl["champion_parameters"] + impl.get("best_parameters", [])
@@ -580,8 +684,12 @@ def body(ck: common.Check):
                f"relative tolerance {TOL} on logarithmic components only; malformed stream: the three rejected declarations), 1-3 decision "
                "vectors in the box incl. corners; every vector/scalar pattern with the logarithm on each position; full calibrations "
                "with sade/sga/nlopt (1-2 islands, 2 evolutions, best individuals) incl. single-scalar-parameter ones; "
+               "history: 3 problems in a row / 2 calibrations in a row from the SAME ParameterValues objects (half of them with a logarithmic "
+               "vector with per-component boundaries), each judged against the original declaration, and the caller's ParameterValues "
+               "(values, boundaries, logarithmic) compared before/after every build and run; "
                "non-trivial = accepted declaration with >= 2 components")
-    ck.assumptions = ["components of logarithmic variables are compared with relative tolerance 1e-11 (10**log10(b) is not exact in binary64); "
+    ck.assumptions = ["the functional model cannot express mutation of the caller's declaration: purity of _set_bound & co. is tied to the code by the history stream",
+                      "components of logarithmic variables are compared with relative tolerance 1e-11 (10**log10(b) is not exact in binary64); "
                       "all other components exactly", "pow10/log10 in the model are the tables numpy produced for the same arguments",
                       "the probe model sees the applied values as ModelFunction passes them (`func(detector, **arguments)`)"]
     ck.trusted_base.append("C10: pygmo evaluates only through problem.fitness (every evaluation is logged by the probe); numpy slice assignment")
@@ -596,8 +704,8 @@ if __name__ == "__main__":
             print("replay names a broken obligation/correspondence, no concrete input:", rp["what"])
             sys.exit(1)
         impl = _run_case(case)
-        pv = predicate_run(case, impl) if case["stream"] == "run" else predicate_direct(case, impl)
-        print("impl:", {k: v for k, v in impl.items() if k != "evals"} if case["stream"] == "run" else impl)
+        pv = over_rounds(predicate_run if case["stream"] == "run" else predicate_direct, case, impl)
+        print("impl:", {k: v for k, v in impl.items() if k not in ("evals", "history")} if case["stream"] == "run" else impl)
         print("REPRODUCED: " + pv[1] if pv else "not reproduced (property holds on this input)")
         sys.exit(1 if pv else 0)
     sys.exit(run_check("C10", body))
